@@ -395,10 +395,10 @@ func runC05(c *Ctx) {
 	if fin := p.Func(cp + "canarystyle.realCanaryController.Finalize"); fin == nil {
 		c.Unresolved("R5.2", "canarystyle control plane Finalize")
 	} else {
-		isDelete := func(in ssa.Instruction) bool {
+		isDelete := MustDo(func(in ssa.Instruction) bool {
 			ci, ok := in.(ssa.CallInstruction)
 			return ok && ci.Common().IsInvoke() && ci.Common().Method.Name() == "Delete" && strings.Contains(ci.Common().Value.Type().String(), "CanaryInterface")
-		}
+		})
 		found := false
 		for _, ci := range AllCalls(fin) {
 			if isDelete(ci.(ssa.Instruction)) {
